@@ -93,6 +93,10 @@ def mergedOf (e : Env ν) (l : List (Val ν)) : Val ν :=
   | [] => .null
   | _ :: _ => .str (joinComma (l.map (toStr e)))
 
+def optNum : Option ν → Val ν
+  | none => .null
+  | some m => .flt m
+
 def numOrNull (l : List ν) (f : List ν → ν) : Val ν :=
   match l with
   | [] => .null
@@ -103,8 +107,8 @@ def value (e : Env ν) (prm : Param ν) : Kind → List (Val ν) → Res ν
   | .count, l => .one (.flt (ofNat (countNonNull l)))
   | .sum, l => .one (numOrNull (nums e l) total)
   | .avg, l => .one (numOrNull (nums e l) average)
-  | .min, l => .one (match least (nums e l) with | none => .null | some m => .flt m)
-  | .max, l => .one (match greatest (nums e l) with | none => .null | some m => .flt m)
+  | .min, l => .one (optNum (least (nums e l)))
+  | .max, l => .one (optNum (greatest (nums e l)))
   | .stddev, l => .one (.flt (sampleStdDev (nums e l)))
   | .stddevs, l => .one (.flt (sampleStdDev (nums e l)))
   | .var, l => .one (.flt (populationVariance (nums e l)))
